@@ -92,6 +92,10 @@ func checkC10(c *Ctx) {
 	c.Expect("C10-R6", 3)
 	c.Rule("C10-R4", "memory handed from the input goroutine to the main loop over a channel is not written again by the sender (a fresh array per chunk): the lock does not cover it")
 	c.Expect("C10-R4", 1)
+	c.Rule("C10-R8", "the event queues are never closed: PostEvent, PostEventWait and SetSize may send at any time, also while or after another goroutine finishes the screen (a send on a closed channel panics; = C06-R12)")
+	c.Expect("C10-R8", 1)
+	c.Rule("C10-R9", "the bytes of a clipboard event are memory made for the event, never a window into the input buffer the main loop keeps refilling (the application reads the event without any lock)")
+	c.Expect("C10-R9", 1)
 	c.Expect("C10-R1", 150)
 	c.Expect("C10-R3", 60)
 	c.Assume("constructors and Init happen-before every other call on the screen")
@@ -113,6 +117,8 @@ func checkC10(c *Ctx) {
 		// concurrent Fini calls: the shutdown body runs once whoever comes first (sync.Once, not a
 		// flag that is read, released and acted upon)
 		c.asRule("C06-R3", "C10-R6", func() { c06Once(c, p) })
+		c.asRule("C06-R12", "C10-R8", func() { checkEventQueuesNeverClosed(c, p, "C06-R12") })
+		checkEventPayloadOwnsMemory(c, p, "C10-R9")
 	}
 	if c.Tier == "thorough" {
 		for _, cfg := range []string{"darwin", "freebsd"} {
